@@ -93,7 +93,7 @@ func cmdCheck(args []string) int {
 	t0 := time.Now()
 	loadKnown()
 
-	evPath := filepath.Join(verifDir, "evidence", id+".json")
+	evPath := filepath.Join(envOr("GOSMT_EVIDENCE_DIR", filepath.Join(verifDir, "evidence")), id+".json")
 	fail := func(reason string) int {
 		// inconclusive: nothing was shown to be violated; evidence says what happened
 		fmt.Printf("INCONCLUSIVE property=%s reason=%s\n", id, reason)
@@ -513,7 +513,7 @@ func cmdCheck(args []string) int {
 			}
 			reportedSite[site] = true
 			violations++
-			dir := filepath.Join(verifDir, "replays", id, fmt.Sprintf("%d", violations))
+			dir := filepath.Join(envOr("GOSMT_REPLAY_DIR", filepath.Join(verifDir, "replays")), id, fmt.Sprintf("%d", violations))
 			os.MkdirAll(dir, 0755)
 			writeJSON(filepath.Join(dir, "vector.json"), []Vector{c.vec})
 			writeJSON(filepath.Join(dir, "meta.json"), map[string]interface{}{
